@@ -417,6 +417,44 @@ pub fn run(tier: Tier) -> ! {
         }
     }
     n_trans += long_builds;
+    // the simple builder: pattern lists whose texts are equal when joined (`a|b`,`c` / `a`,`b|c` /
+    // `a|b|c` / `a`,`b`,`c`), and lists that differ in order only, built through add_patterns().build()
+    // in every order; each must behave like the uncached build of its documented equivalent (one
+    // mode INITIAL, token type = index)
+    {
+        let lists: Vec<Vec<&str>> = vec![vec!["a|b", "c"], vec!["a", "b|c"], vec!["a|b|c"], vec!["a", "b", "c"], vec!["c", "b", "a"], vec!["a", "bc"], vec!["ab", "c"]];
+        let uncached: Vec<Option<Behaviour>> = lists.iter().map(|l| catch(|| Cfg { modes: vec![CMode { name: "INITIAL".into(), pats: l.iter().enumerate().map(|(i, p)| CPat::new(p, i)).collect(), transitions: vec![] }] }.build_uncached().map(|sc| behaviour(&sc, &ins))).ok().and_then(|r| r.ok())).collect();
+        // all ordered pairs and all rotations of the whole list
+        let mut orders: Vec<Vec<usize>> = vec![];
+        for i in 0..lists.len() {
+            for j in 0..lists.len() {
+                if i != j {
+                    orders.push(vec![i, j]);
+                }
+            }
+            orders.push((0..lists.len()).map(|k| (k + i) % lists.len()).collect());
+        }
+        'orders: for order in orders {
+            let _ = catch(cache_clear);
+            for &k in &order {
+                n_trans += 1;
+                let got = catch(|| ScannerBuilder::new().add_patterns(lists[k].clone()).build().map(|sc| behaviour(&sc, &ins))).ok().and_then(|r| r.ok());
+                let same = match (&got, &uncached[k]) {
+                    (Some(g), Some(w)) => g.names == w.names && g.streams == w.streams,
+                    (None, None) => true,
+                    _ => false,
+                };
+                if !same {
+                    let d = match (&got, &uncached[k]) {
+                        (Some(g), Some(w)) => diff(g, w, &ins),
+                        _ => "one of the two builds failed".to_string(),
+                    };
+                    viol.add("", || Violation { key: String::new(), summary: format!("add_patterns({:?}).build() after add_patterns builds of {:?}: {d}", lists[k], order.iter().take_while(|&&x| x != k).map(|&x| &lists[x]).collect::<Vec<_>>()).chars().take(600).collect(), replay: json!({"calls": std::iter::once("scnr::verif::cache_clear()".to_string()).chain(order.iter().map(|&x| format!("ScannerBuilder::new().add_patterns({:?}).build()", lists[x]))).collect::<Vec<_>>(), "compared": format!("the build of {:?} with its build_uncached()", lists[k]), "disagreement": d}) });
+                    break 'orders;
+                }
+            }
+        }
+    }
     // (after a panic inside the lock the cache is poisoned and the hook itself panics)
     let _ = catch(cache_clear);
     let n_dis = viol.total();
